@@ -29,6 +29,7 @@ const (
 	rcLastErr = 90  // +j
 	rcRefHeld = 100 // +j
 	rcCtxBg0  = 150 // +i  rcCtxChange (context changes begun) when call i started
+	rcErrRel0 = 160 // +i  call i returned an error together with a release function
 )
 
 // resolver scripts
@@ -38,6 +39,7 @@ const (
 	mLate              // return the value only after the resolver context is cancelled
 	mSlow              // take two steps, then return the value
 	mInvalidate        // return the value; a separate thread calls released() at any time
+	mErrorRel          // return an error together with a release function (which must still run exactly once)
 )
 
 var errResolve = errors.New("resolve-error")
@@ -85,6 +87,12 @@ func newRC2(ctx context.Context, keep bool, script func(i int) int) *rcEnv {
 			})
 		}
 		vsched.CtrAdd(rcResolving, -1)
+		if mode == mErrorRel {
+			vsched.CtrSet(rcRet0+i, 2)
+			vsched.CtrSet(rcErrRel0+i, 1)
+			vsched.Observe(oExit, int64(i), 3, 0)
+			return 0, func() { e.releaseFn(i) }, errResolve
+		}
 		if mode == mError {
 			vsched.CtrSet(rcRet0+i, 2)
 			vsched.Observe(oExit, int64(i), 2, 0)
@@ -226,6 +234,11 @@ func (e *rcEnv) finalRelease() {
 	cur := e.target.GetValue()
 	keepOK := vsched.Ctr(rcKeep) != 0 && vsched.Ctr(rcCtxSet) != 0
 	for i := 1; i <= n && i <= 8; i++ {
+		if vsched.Ctr(rcErrRel0+i) != 0 && vsched.Ctr(rcHeld) == 0 {
+			if rel := vsched.Ctr(rcRel0 + i); rel != 1 {
+				fail("C08.not-released", "resolver call %d returned an error together with a release function, which ran %d times although no reference is held any more", i, rel)
+			}
+		}
 		if vsched.Ctr(rcRet0+i) != 1 {
 			continue
 		}
@@ -255,11 +268,11 @@ func init() {
 	}
 	eng.Register(&eng.Scenario{
 		Name: "refcount-refs", Props: []string{"C08", "C09"}, MustFinish: true, ObsNames: stdObs,
-		Doc:   "RefCount (keep-unreferenced f/t): two reference users AddRef(cb | nil)..Release[twice]; first resolver call scripted {value, error, late, slow, value+released() from another thread}; release-exactly-once, not-exposed-after-release, resolver-overlap, result-delivered oracles",
-		Quick: eng.Bounds{PB: 3, Delay: true}, Thorough: eng.Bounds{PB: 4, Delay: true},
+		Doc:   "RefCount (keep-unreferenced f/t): two reference users AddRef(cb | nil)..Release[twice]; first resolver call scripted {value, error, late, slow, value+released() from another thread, error+release func}; release-exactly-once, not-exposed-after-release, resolver-overlap, result-delivered oracles",
+		Quick: eng.Bounds{PB: 3, Delay: true, Cap: 6000000}, Thorough: eng.Bounds{PB: 4, Delay: true},
 		Body: func() {
 			keep := vsched.Choose(2) == 1
-			e := newRC2(bg, keep, firstThen(vsched.Choose(5)))
+			e := newRC2(bg, keep, firstThen(vsched.Choose(6)))
 			nilCb := vsched.Choose(2) == 1
 			T("U0", func() { e.user(0, false, true) })
 			T("U1", func() { e.user(1, nilCb, false) })
@@ -303,7 +316,7 @@ func init() {
 		Quick: eng.Bounds{PB: 3, Delay: true}, Thorough: eng.Bounds{PB: 4, Delay: true},
 		Body: func() {
 			keep := vsched.Choose(2) == 1
-			e := newRC2(bg, keep, firstThen([]int{mValue, mInvalidate, mError, mSlow}[vsched.Choose(4)]))
+			e := newRC2(bg, keep, firstThen([]int{mValue, mInvalidate, mError, mSlow, mErrorRel}[vsched.Choose(5)]))
 			ref := e.rc.AddRef(refCb(0))
 			vsched.CtrSet(rcRefHeld+0, 1)
 			vsched.CtrAdd(rcHeld, 1)
